@@ -253,6 +253,23 @@ def _run(ctx, replay):
             gen = xrlops.generic_functions(meta)
             ents_g = [e for e in ents if e in gen]
             if ents_g:
+                # exhaustive discrete sweep of the offending entries (every Z x every macro value, typical real arguments): a trace left only
+                # for one element / one macro (a stray diagnostic for Z = 81, a cache for one shell) must not depend on being sampled
+                from vlib import apisweep
+                for fn_ in ents_g[:6]:
+                    ret_, ins_, zout_ = gen[fn_]
+                    if any(kd not in ('i', 'd') for _, kd in ins_) or sum(1 for _, kd in ins_ if kd == 'i') > 2: continue
+                    vals_ = []
+                    for pn_, kd in ins_:
+                        if kd == 'i': vals_.append([str(v) for v in apisweep.int_values(pn_, False, ctx.rng, ctx.tier, False)])
+                        else: vals_.append([xrlops.hx(v) for v in ([0.5] if pn_.lower() in ('pz', 'q') else [1.0] if pn_.lower() in ('theta', 'phi') else [10.0, 0.05])])
+                    combos = [[]]
+                    for vs in vals_: combos = [c + [v] for c in combos for v in vs]
+                    if len(combos) > 120000: combos = ctx.rng.sample(combos, 120000)
+                    allops = ['%s %s E' % (fn_, ' '.join(c)) for c in combos]
+                    for k0 in range(0, len(allops), 6000):
+                        check_history(allops[k0:k0 + 6000], C_ENV, 'exhaustive sweep of %s [%d..]' % (fn_, k0))
+                        if any(f.get('label', '').startswith('exhaustive sweep') for f in findings): break
                 for rnd in range(6):
                     g = xrlops.OpGen(random.Random(ctx.rng.getrandbits(64)), meta); g.fresh_p = 0.05
                     ops = [g.generic_op(g.rng.choice(ents_g)) for _ in range(800)]
